@@ -35,8 +35,7 @@ def main():
             taint = {x[0]: x[1] for x in v.get("taint", [])}
             for c, idx in v["fails"]:
                 prop = c.split(".")[0]
-                kn = [f["id"] for f in known if f["status"] == "open" and f["id"] in taint and taint[f["id"]] <= idx
-                      and any(c.startswith(pat) for pat in f.get("explains", []))]
+                kn = [f["id"] for f in check.explaining([f for f in known if f["status"] == "open"], v, c, idx)]
                 key = c + ("  [known " + kn[0] + "]" if kn else "")
                 fails[key] += 1; ex_f.setdefault(key, (t["family"], t["seed"], idx))
             for d in v["drift"][:1]:
